@@ -11,7 +11,7 @@ import (
 type vAddr uint8
 
 func (a vAddr) MarshalText() ([]byte, error) { return []byte{'a' + byte(a)}, nil }
-func (a vAddr) String() string                { return string([]byte{'a' + byte(a)}) }
+func (a vAddr) String() string               { return string([]byte{'a' + byte(a)}) }
 
 type vSent struct {
 	dst  vAddr
